@@ -348,10 +348,14 @@ impl<'p> CoroutinePool<'p> {
     /// clean the task result data.
     pub fn clean_task_result(&self, task_id: u64) {
         if self.try_take_task_result(task_id).is_some() {
+            // the task is over: a cancel request that came too late
+            // must not wait for a later task with the same id
+            _ = CANCEL_TASKS.remove(&task_id);
             return;
         }
+        // the task has not finished: a pending cancel request stays valid
+        // (`try_run` removes it when it skips the task)
         _ = NO_WAITS.insert(task_id);
-        _ = CANCEL_TASKS.remove(&task_id);
     }
 
     /// Use the given `task_id` to obtain task results, and if no results are found,
